@@ -199,6 +199,8 @@ func blobProvSim(r *simcore.Run) {
 			return &simErr{code, fmt.Sprintf("injected %s on %s %s", code, op, key)}
 		}
 		rec := provsim.NewRecorder(r, "cloud_blob")
+		rec.Silent = true // removals are issued in map order: processor calls are logged sorted at quiescent points
+		logged := 0
 		keys := []string{"svc/a.yaml", "svc/b.yaml", "svc/c.yaml"}
 		bucketConf := map[string]any{"url": "simblob://bucket", "prefix": "svc"}
 		epID := "simblob://bucket/svc"
@@ -350,6 +352,12 @@ func blobProvSim(r *simcore.Run) {
 		}
 		check := func(when string) bool {
 			synctest.Wait()
+			delta := append([]string(nil), rec.Log[logged:]...)
+			logged = len(rec.Log)
+			sort.Strings(delta)
+			for _, l := range delta {
+				r.Logf("processor: %s", l)
+			}
 			foldPoll()
 			for _, k := range keys {
 				actual := rec.Active(source(k))
